@@ -678,8 +678,8 @@ def _max_abs(r):
 def _sum_abs(r):
     """Validate.sumAbs of the model: magnitudes of all ints / truncated finite floats, dict keys included"""
     t = r['t']
-    if t == 'i':
-        return abs(R.build(r))
+    if t in ('i', 'B'):
+        return abs(int(R.build(r)))
     if t == 'f':
         return abs(int(R.build(r))) if r['hex'] not in ('nan', 'inf', '-inf') else 0
     if t in ('l', 'u'):
